@@ -124,10 +124,11 @@ def model_line(rec_inp, impl):
 
 
 def struct_data(tier, seed, inputs=None):
-    wd = os.path.join(C.CACHE, "run", "struct")
-    os.makedirs(wd, exist_ok=True)
+    cdir = os.path.join(C.CACHE, "run", "struct")
+    os.makedirs(cdir, exist_ok=True)
+    wd = C.rundir("struct")
     key = f"{C.repo_hash()}_{geo.verif_hash()}_{seed}_{tier}"
-    cache = os.path.join(wd, f"struct_{key}.pkl")
+    cache = os.path.join(cdir, f"struct_{key}.pkl")
     if inputs is None and os.path.exists(cache):
         try:
             return pickle.load(open(cache, "rb"))
@@ -162,10 +163,15 @@ def struct_data(tier, seed, inputs=None):
                 pass
     data = {"cases": cases, "impl": impl, "model": model}
     if not custom:
-        for fn in os.listdir(wd):
-            if fn.startswith("struct_") and fn.endswith(".pkl"):
-                os.remove(os.path.join(wd, fn))
-        pickle.dump(data, open(cache, "wb"))
+        for fn in os.listdir(cdir):
+            if fn.startswith("struct_") and fn.endswith(".pkl") and tier in fn:
+                try:
+                    os.remove(os.path.join(cdir, fn))
+                except OSError:
+                    pass
+        tmp = cache + ".%d.tmp" % os.getpid()
+        pickle.dump(data, open(tmp, "wb"))
+        os.replace(tmp, cache)
     return data
 
 
